@@ -55,7 +55,7 @@ def newton(f, x0, jac, niter=20, tol=1e-13, nlinesearch=10):
             logger.info('Line search failed to reduce residual')
             break
 
-    if last_residual_norm > tol * 1e4:
+    if not (last_residual_norm <= tol * 1e4):
         logger.warning('Newton solve did not get close to desired tolerance. '
                        f'Final residual: {last_residual_norm}')
 
